@@ -723,6 +723,36 @@ r3:
 		}
 		delete(kw, a.join)
 		delete(kw, a.rebuild)
+		// the view belongs to one incarnation of the agent: members and kinds are created where the Agent is created (inside
+		// the producer), not captured from outside it — otherwise one of them survives a restart of the agent and the other
+		// does not (kinds of members that left during the restart stay, or the view stays and the kinds are gone)
+		{
+			okI, n := true, 0
+			detail := ""
+			for _, fn := range w.Funcs {
+				if !w.isLib(fn) || fnPkgPath(fn) != modPath+"/cluster" {
+					continue
+				}
+				for _, al := range w.allocsOf(fn, a.agentT) {
+					fs, lit := w.litFields(al)
+					if !lit {
+						continue
+					}
+					n++
+					for _, f := range []string{"members", "kinds"} {
+						v := fs[f]
+						if v == nil {
+							okI, detail = false, "Agent."+f+" is not initialised where the agent is created"
+							continue
+						}
+						if p := w.pathOf(v); strings.HasPrefix(p, "FV:") || strings.HasPrefix(p, "P") || strings.HasPrefix(p, "G:") {
+							okI, detail = false, "Agent."+f+" is "+p+", created outside the producer that builds the agent: it is shared by all incarnations"
+						}
+					}
+				}
+			}
+			r.Check(okI && n > 0, "C18.R3", "Agent:state-per-incarnation", "the member set and the kinds of an agent are created together with it", w.fnPos(a.recv), detail)
+		}
 		r.Check(len(kw) == 0, "C18.R3", "Agent.kinds:writers", "only the join handler and the rebuild helper change kinds", w.fnPos(a.rebuild), fmt.Sprintf("other writers: %v", fnNames(kw)))
 	}
 	// R4
